@@ -53,10 +53,16 @@ def _r1(prog, rep):
     pw, ps, pW, pP, pWS = poly(m.width), poly(m.start), poly(m.W), poly(m.P), poly(m.WS)
     pidx = poly(m.idx)
     lw_candidates = set()
+    # comparisons that only look at the shape of the width list (how many widths, how many lines so far) belong to
+    # the line-width lookup, which R2 checks as a value; they are not break conditions
+    shape_atoms = {("call", "[]::len", (m.LW,)), ("call", "Vec::len", (m.acc_state,)), ("call", "[]::len", (m.acc_state,))}
+    lookup_guard = lambda nf: bool(nf[1].atoms()) and nf[1].atoms() <= shape_atoms
     for tr in m.trans:
         for f in tr.facts:
             if f[0][0] == "cmp":
                 nf = fact_nf(f)
+                if lookup_guard(nf):
+                    continue
                 for a in nf[1].atoms():
                     if a not in (m.width, m.start, m.W, m.P, m.WS, m.idx):
                         lw_candidates.add(a)
@@ -72,7 +78,7 @@ def _r1(prog, rep):
     for tr in m.trans:
         if tr.kind != "back":
             continue
-        nfs = [fact_nf(f) for f in tr.facts if f[0][0] == "cmp"]
+        nfs = [nf for nf in (fact_nf(f) for f in tr.facts if f[0][0] == "cmp") if not lookup_guard(nf)]
         pushes = [e for e in tr.events if e[1] == "Vec::push"]
         site = site_of_block(body, pushes[0][0]) if pushes else site_of_block(body, tr.path[-2])
         nw = poly(tr.next[m.width_pk])
